@@ -456,6 +456,21 @@ func c09Plans(c *engine.Ctx) []c09Plan {
 		}
 		return nil
 	}}
+	// every version of a key deleted by id, the archived one first: the key's entry has
+	// gone through the "history emptied without a promotion" path of the memory backend
+	versionsGone := c09State{name: "versions-deleted-by-id", setup: func(w *drv.World, vars map[string]string) error {
+		if err := c09SetupVersioned(false)(w, vars); err != nil {
+			return err
+		}
+		r1 := w.Do(drv.Req{Method: "PUT", Path: "/aaa/g", Body: []byte("g-v1")})
+		r2 := w.Do(drv.Req{Method: "PUT", Path: "/aaa/g", Body: []byte("g-v2")})
+		for _, r := range []drv.Resp{r1, r2} {
+			if id := r.Header.Get("x-amz-version-id"); id != "" {
+				w.Do(drv.Req{Method: "DELETE", Path: "/aaa/g", Query: drv.Q("versionId", id)})
+			}
+		}
+		return nil
+	}}
 	var plans []c09Plan
 	kinds := drv.MemFsKinds
 	if !quick(c) {
@@ -464,7 +479,7 @@ func c09Plans(c *engine.Ctx) []c09Plan {
 	for _, k := range kinds {
 		states := []c09State{empty, objects, uploads, uploadsClosed}
 		if k == drv.Mem {
-			states = append(states, versioned, suspended)
+			states = append(states, versioned, suspended, versionsGone)
 		}
 		for _, st := range states {
 			plans = append(plans, c09Plan{cfg: drv.Config{Kind: k}, state: st})
